@@ -4,7 +4,7 @@
 #ifndef L
 #define L 4
 #endif
-#define VF_INPUTS(X) X(unsigned char, t, [L + 2])
+#define VF_INPUTS(X) X(unsigned char, t, [L + 2]) X(size_t, bigidx, )
 #include "vf.h"
 #include "vf_strtoul.h"
 #include "cJSON_Utils.c"
@@ -21,6 +21,14 @@ int main(VF_MAIN_ARGS)
     VF_AP(15, (r != 0) == (valid != 0), "C15 an array index token is accepted iff it is a decimal number without sign, leading zeros or other characters");
     VF_AP(16, (r != 0) == (valid != 0), "C16 an array index token is accepted iff it is a decimal number without sign, leading zeros or other characters");
     if (r && valid) { VF_AP(15, idx == want, "C15 the index is the decimal value of the token"); VF_WITNESS("accepted"); }
+    {   /* the element walk: index i selects the i-th element for EVERY size_t value (no truncation), NULL beyond the end */
+        cJSON arr, el[3]; size_t want_i = IN.bigidx; cJSON *got; unsigned k;
+        memset(&arr, 0, sizeof arr); memset(el, 0, sizeof el); arr.type = cJSON_Array;
+        for (k = 0; k < 3; k++) { el[k].type = cJSON_Number; if (k) { el[k - 1].next = &el[k]; el[k].prev = &el[k - 1]; } }
+        arr.child = &el[0]; el[0].prev = &el[2];
+        got = get_array_item(&arr, want_i);
+        VF_AP(15, got == (want_i < 3 ? &el[want_i] : 0), "C15 an index selects exactly that element, every index beyond the end selects nothing (no truncation of large indices)");
+    }
     VF_WITNESS("end");
     free(tok);
     return 0;
